@@ -272,6 +272,11 @@ def b_list(c):
             c.ret(("lit", c.callee[8:], x[2], c.site[:3] if c.callee == "builtin:list" else None), pure=False)
             return
     inner_ok = is_call(x, ("method:keys", "method:values", "method:items"))
+    xt = c.types(x)
+    if c.callee in ("builtin:list", "builtin:tuple", "builtin:iter", "builtin:enumerate") and xt is not None and xt and xt <= {"set", "frozenset"}:
+        # the order in which a set hands out (str) elements depends on the process's hash seed
+        c.s = c.s.copy()
+        c.s.ev("ambient", c.site, "ext:PYTHONHASHSEED (set iteration order)")
     if not inner_ok:
         c.need_type(x, CONTAINERS | {"generator"}, "TypeError", "%s() of a value that may not be iterable" % c.callee[8:])
     if c.callee in ("builtin:list", "builtin:tuple", "builtin:sorted"):
@@ -882,6 +887,19 @@ def x_dumps(c):
     # RecursionError excluded by A4
     c.rz("TypeError", "json.dumps of a value that is not JSON-serializable (or mixed key types with sort_keys)")
     c.rz("ValueError", "json.dumps of a circular structure / out-of-range float with allow_nan=False")
+    hook = dict(c.kwargs).get("default")
+    if hook is not None and isinstance(hook, tuple) and hook and hook[0] in ("global", "closure", "rawfunc", "partial") and not (hook[0] == "global" and not hook[1].startswith("func:")):
+        # default=<function of the repository>: the encoder calls it for every value it has no
+        # encoding for - what that function does (and reads) is part of what dumps() does
+        from .calls import call_value
+
+        s_hook = None
+        for s2, k2, _p2 in call_value(c.w, c.e, hook, (Fresh("unencodable"),), (), c.s):
+            if k2 == "val" and s_hook is None:
+                s_hook = s2
+        if s_hook is not None:
+            c.ret(None, ("type", c.term, frozenset(["str"])), pure=False, state=s_hook)
+            return
     c.ret(None, ("type", c.term, frozenset(["str"])))
 
 
@@ -2073,3 +2091,11 @@ def x_std_fileno(c):
 def x_std_flush(c):
     c.rz("OSError", "flush() of a closed pipe (BrokenPipeError)", pure=False)
     c.ret(C(None), pure=False)
+
+
+@ext("glob.glob", "glob.iglob", "os.scandir", "os.walk", "fnmatch.filter")
+def x_glob(c):
+    """directory listings: what they return is the state of the file system (in an order the
+    file system chooses)"""
+    c.rz("OSError", "%s() may fail" % c.callee[4:], pure=False)
+    c.ret(None, ("type", c.term, frozenset(["list"])), pure=False, extra_event=("ambient", c.site, c.callee))
